@@ -28,7 +28,7 @@ pub fn dispatch(args: &Args) -> Report {
         "C04" => c04::run(args),
         "C05" => c05::run(args),
         "C06" => c06::run(args),
-        "C03R" | "C10R" => c06::run_reuse(args),
+        "C03R" | "C10R" | "C15R" => c06::run_reuse(args),
         "C07" => c07::run(args),
         "C08" => c08::run(args),
         "C09" => c09::run(args),
